@@ -161,7 +161,10 @@ ASMJIT_FAVOR_SIZE Error EmitHelper::emit_reg_move(
 
     case TypeId::kMmx32:
       inst_id = Inst::kIdMovd;
-      if (mem_flags) break;
+      if (mem_flags) {
+        override_mem_size = 4;
+        break;
+      }
       [[fallthrough]];
 
     case TypeId::kMmx64 : inst_id = Inst::kIdMovq ; break;
